@@ -275,4 +275,86 @@ theorem convertFinite_subnormal (bias emask : Int) (mb : Nat) (x y : FPNum) (sh 
     have : y.m * ((2:Int)^a * (2:Int)^k) = (y.m * (2:Int)^k) * (2:Int)^a := by ac_rfl
     rw [this, ← h2, hxm]; ac_rfl
   rw [hstd]; simp [Option.map]
+/-- **field-level round trip for a generic format** (`e_sub = 1 − e_bias`, exponent field `≤ e_max`, mantissa `< 2^mb`,
+    not a NaN): `from_parts` followed by `convertParts` returns the fields it was given -/
+theorem roundtrip_fields (e_max e_sub e_bias : Int) (mb : Nat) (nanM : Int) (S E M : Nat)
+    (hS : S < 2) (hE1 : (E : Int) ≤ e_max) (hM1 : M < 2^mb) (hnan : (E : Int) = e_max → M = 0)
+    (hsub : e_sub = 1 - e_bias) (hmaxpos : 0 < e_max) :
+    ∃ x, from_parts (S : Int) (E : Int) (M : Int) e_max e_sub e_bias mb = some x ∧
+         convertParts x e_bias e_max ((2:Int)^mb) nanM 0 = some ((S : Int), (E : Int), (M : Int)) := by
+  have hM1' : (M : Int) < (2:Int)^mb := by rw [← nat_pow_cast]; exact Int.ofNat_lt.mpr hM1
+  have hmbpos := two_pow_pos_int mb
+  -- the sign bit that `convert` recomputes from x.s
+  have hsign : (if (if ((S : Int) == 0) = true then (1:Int) else -1) > 0 then (0:Int) else 1) = (S : Int) := by
+    rcases Nat.lt_or_ge S 1 with c | c
+    · have : S = 0 := by omega
+      subst this; simp
+    · have : S = 1 := by omega
+      subst this; decide
+  unfold from_parts
+  simp only []
+  by_cases cmax : (E : Int) = e_max
+  · have hm0 := hnan cmax
+    subst hm0
+    have : ((E : Int) == e_max) = true := by simp [cmax]
+    simp only [this, if_true]
+    refine ⟨_, rfl, ?_⟩
+    rcases (show S = 0 ∨ S = 1 by omega) with rfl | rfl <;> simp [convertParts, set_semp, fresh, cmax]
+  · have : ((E : Int) == e_max) = false := by simp [cmax]
+    simp only [this, Bool.false_eq_true, if_false, shl_one]
+    by_cases ce0 : E = 0
+    · subst ce0
+      simp only [Int.natCast_zero, beq_self_eq_true, if_true]
+      rw [set_semp_finite _ _ _ _ hmbpos]
+      obtain ⟨y, hy⟩ := adjust_semp_total' ({ s := (if ((S : Int) == 0) = true then 1 else -1), e := e_sub, m := (M : Int), p := (2:Int)^mb } : FPNum)
+        (by exact hmbpos) (by show (0:Int) ≤ (M : Int); omega)
+      refine ⟨y, hy, ?_⟩
+      have post := adjust_semp_spec _ y (by exact hmbpos) (by show (0:Int) ≤ (M : Int); omega) hy
+      have hinf : y.infinity = false := post.inf
+      have hnn : y.nan = false := post.nan
+      have hs : y.s = (if ((S : Int) == 0) = true then 1 else -1) := post.s
+      unfold convertParts
+      simp only [hinf, hnn, Bool.or_self, Bool.false_eq_true, if_false, hs, hsign]
+      by_cases cm0 : M = 0
+      · subst cm0
+        have : y.m = 0 := post.zero.mp rfl
+        simp [this]
+      · have hMpos : (0:Int) < (M : Int) := by omega
+        have ym : ¬ (y.m = 0) := fun h => by
+          have := post.zero.mpr h
+          simp at this; omega
+        have ym' : (y.m == 0) = false := by simp [ym]
+        simp only [ym', Bool.false_eq_true, if_false]
+        have sh := adjust_semp_shape _ y (by exact hmbpos) (by exact hMpos) (by show (M : Int) < 2 * (2:Int)^mb; omega) hy
+        rw [convertFinite_subnormal e_bias e_max mb _ y sh rfl (M : Int) rfl hMpos hM1' (by show e_sub = 1 - e_bias; exact hsub) hmaxpos]
+        simp [Option.map]
+    · have ce0' : ((E : Int) == 0) = false := by simp; omega
+      simp only [ce0', Bool.false_eq_true, if_false]
+      rw [set_semp_finite _ _ _ _ hmbpos, lor_hidden_bit M mb hM1]
+      obtain ⟨y, hy⟩ := adjust_semp_total' ({ s := (if ((S : Int) == 0) = true then 1 else -1), e := (E : Int) - e_bias, m := (2:Int)^mb + (M : Int), p := (2:Int)^mb } : FPNum)
+        (by exact hmbpos) (by show (0:Int) ≤ (2:Int)^mb + (M : Int); omega)
+      refine ⟨y, hy, ?_⟩
+      have post := adjust_semp_spec _ y (by exact hmbpos) (by show (0:Int) ≤ (2:Int)^mb + (M : Int); omega) hy
+      have hinf : y.infinity = false := post.inf
+      have hnn : y.nan = false := post.nan
+      have hs : y.s = (if ((S : Int) == 0) = true then 1 else -1) := post.s
+      have sh := adjust_semp_shape _ y (by exact hmbpos) (by show (0:Int) < (2:Int)^mb + (M : Int); omega)
+        (by show (2:Int)^mb + (M : Int) < 2 * (2:Int)^mb; omega) hy
+      have ym : ¬ (y.m = 0) := fun h => by
+        have := sh.normal; have := sh.p_pos; omega
+      have ym' : (y.m == 0) = false := by simp [ym]
+      unfold convertParts
+      simp only [hinf, hnn, Bool.or_self, Bool.false_eq_true, if_false, hs, hsign, ym']
+      rw [convertFinite_normal e_bias e_max mb _ y sh rfl (M : Int) (E : Int) rfl (by omega) hM1' rfl (by omega) (by omega)]
+      simp [Option.map]
+theorem land_one_nat (x : Nat) : Py.land (x : Int) 1 = ((x % 2 : Nat) : Int) := by
+  have := land_mask_nat x 1
+  simpa using this
+
+theorem isNaN_false (f : IEEE.Format) (b : Nat) (h : IEEE.isNaN f b = false) :
+    IEEE.expOf f b = 2 ^ f.ebits - 1 → IEEE.manOf f b = 0 := by
+  intro he
+  unfold IEEE.isNaN at h
+  simp [he] at h; exact h
+
 end C12
